@@ -6,3 +6,19 @@
 
 pub mod facade;
 pub mod iotap;
+
+use std::sync::atomic::{AtomicBool, Ordering};
+
+static INLINE_TASKS: AtomicBool = AtomicBool::new(false);
+
+/// When set, `SharedTaskRunner::run` / `run_with_result` execute the statement's task on the
+/// calling thread instead of handing it to a pool worker. A harness that schedules its own
+/// client threads uses this so that the thread issuing a statement is the thread running it.
+/// Off by default; nothing in the engine sets it.
+pub fn set_inline_tasks(on: bool) {
+    INLINE_TASKS.store(on, Ordering::SeqCst);
+}
+
+pub fn inline_tasks() -> bool {
+    INLINE_TASKS.load(Ordering::SeqCst)
+}
